@@ -29,15 +29,21 @@ type Grease struct {
 	Body int `json:"body"`
 	Tag  int `json:"tag"`
 	Arg  int `json:"arg,omitempty"` // length of an extra (long) argument on the stanza line
+	NArg int `json:"narg,omitempty"` // further short arguments on the stanza line (stanzas with 6..22 arguments)
 	App  int `json:"app,omitempty"` // the recipient appends this many bytes to the file-key slice it was handed (msg := append(fileKey, ctx...)): legal, and harmless while the slice has no spare capacity
+}
+
+// Recipient builds the sim-owned recipient the description stands for.
+func (g *Grease) Recipient() *world.GreaseRecipient {
+	return &world.GreaseRecipient{N: g.N, BodyLen: g.Body, Tag: g.Tag, ArgLen: g.Arg, Append: g.App, NArgs: g.NArg}
 }
 
 func (r Recip) String() string {
 	if r.Key != nil {
 		return r.Key.String()
 	}
-	if r.Grease.Arg > 0 {
-		return fmt.Sprintf("g%dx%da%d", r.Grease.N, r.Grease.Body, r.Grease.Arg)
+	if r.Grease.Arg > 0 || r.Grease.NArg > 0 {
+		return fmt.Sprintf("g%dx%da%dn%d", r.Grease.N, r.Grease.Body, r.Grease.Arg, r.Grease.NArg)
 	}
 	return fmt.Sprintf("g%dx%d", r.Grease.N, r.Grease.Body)
 }
@@ -66,7 +72,7 @@ func BuildRecipients(rs []Recip) []age.Recipient {
 		if r.Key != nil {
 			out = append(out, world.Recipient(*r.Key))
 		} else {
-			out = append(out, &world.GreaseRecipient{N: r.Grease.N, BodyLen: r.Grease.Body, Tag: r.Grease.Tag, ArgLen: r.Grease.Arg, Append: r.Grease.App})
+			out = append(out, r.Grease.Recipient())
 		}
 	}
 	return out
@@ -117,6 +123,12 @@ func GenRecips(r *core.RNG, max int, allowRSA, allowScrypt bool) []Recip {
 			}
 			if r.Chance(1, 6) {
 				g.App = r.Pick(1, 8, 16, 17)
+			}
+			if r.Chance(1, 8) {
+				g.NArg = r.Pick(3, 4, 5, 8, 20)
+				if g.N == 0 {
+					g.N = 1
+				}
 			}
 			out = append(out, Recip{Grease: g})
 		}
